@@ -28,7 +28,7 @@ ASSUMPTIONS = ['gaussian_noise_scale is judged relative to the harness stand-in 
                'permute_and_flip makes no choice() call and is used by no shipped mechanism: out of scope']
 PLAN = {
     'quick': dict(cases=600, budget_s=60, case_timeout=60, min_cases=150),
-    'thorough': dict(cases=30000, budget_s=900, case_timeout=60, min_cases=6000),
+    'thorough': dict(cases=15000, budget_s=600, case_timeout=60, min_cases=2500),
 }
 
 
